@@ -146,7 +146,19 @@ pub fn adjust(cfg: &mut SwarmCfg, tier: &str, r: &mut Prng) {
             setw(cfg, "crash", 2);
             setw(cfg, "reload", 10);
             setw(cfg, "burst", if r.chance(1, 3) { 3 } else { 0 });
+            setw(cfg, "late_seq", 4);
             cfg.knobs.push(("dup-heavy".into(), 1));
+            if r.chance(1, 4) {
+                // many epochs with messages that arrive one or more epochs late (and again)
+                cfg.scenario = "late-epochs".into();
+                cfg.oracles.push("retention".into());
+                cfg.retention = *r.pick(&[3u64, 5]);
+                setw(cfg, "commit", 18);
+                setw(cfg, "deliver", 10);
+                setw(cfg, "write", 14);
+                setw(cfg, "late_seq", 10);
+                setw(cfg, "burst", 0);
+            }
         }
         "C18" => {
             cfg.oracles = sv(&["agreement", "retention", "state-unchanged", "kdf-model", "record-crypto"]);
@@ -170,6 +182,7 @@ pub fn adjust(cfg: &mut SwarmCfg, tier: &str, r: &mut Prng) {
             setw(cfg, "commit", 14);
             setw(cfg, "propose", 4);
             setw(cfg, "write", *r.pick(&[0u32, 2, 8, 20]));
+            setw(cfg, "late_seq", 6);
             if r.chance(1, 3) {
                 cfg.scenario = "two-groups".into();
                 cfg.knobs.push(("groups".into(), 2));
@@ -307,6 +320,7 @@ pub fn adjust(cfg: &mut SwarmCfg, tier: &str, r: &mut Prng) {
             cfg.storage = *r.pick(&[StorageKind::Mem, StorageKind::Sql, StorageKind::Mirror, StorageKind::Mirror]);
             cfg.n_parties = cfg.n_parties.min(7);
             cfg.knobs.push(("twins".into(), r.range(1, 3)));
+            setw(cfg, "burst", if r.chance(1, 4) { 3 } else { 0 });
             if r.chance(1, 4) {
                 // a re-initialised group is stored and restored like any other
                 cfg.knobs.push(("reinit".into(), 1));
@@ -370,6 +384,9 @@ pub fn extra_kinds(w: &World, kinds: &mut Vec<(&'static str, u32)>) {
     }
     if w.cfg.weight("nm_propose") > 0 && !w.live_members(g).is_empty() {
         kinds.push(("nm_propose", w.cfg.weight("nm_propose")));
+    }
+    if w.cfg.weight("late_seq") > 0 && !w.live_members(g).is_empty() {
+        kinds.push(("late_seq", w.cfg.weight("late_seq")));
     }
     if w.cfg.weight("xgroup") > 0 && w.groups.len() >= 2 {
         kinds.push(("xgroup", w.cfg.weight("xgroup")));
@@ -510,6 +527,15 @@ pub fn extra_action(w: &mut World, kind: &str) -> Option<Action> {
             b: g as u64,
             c: 0,
         }),
+        "late_seq" => {
+            let live = w.live_members(g);
+            Some(Action::Special {
+                kind: "late_seq".into(),
+                a: *w.prng.pick(&live) as u64,
+                b: g as u64,
+                c: 0,
+            })
+        }
         "xgroup" => Some(Action::Special {
             kind: "xgroup".into(),
             a: w.prng.usize_below(w.parties.len()) as u64,
@@ -640,7 +666,7 @@ pub fn extra_action(w: &mut World, kind: &str) -> Option<Action> {
                 kind: "burst".into(),
                 a: p as u64,
                 b: *w.prng.pick(&[1u64, 5, 40, 1023, 1024, 1025, 1030]),
-                c: 0,
+                c: if w.prng.chance(1, 2) { 1 + w.prng.below(8) } else { 0 },
             })
         }
         "apply_detached" => {
@@ -855,6 +881,7 @@ pub fn setup(w: &mut World) -> VResult<()> {
 /// run-level checks at the end of a run (after the heal phase)
 pub fn finish(w: &mut World) -> VResult<()> {
     crate::c17::finish_reinit(w)?;
+    crate::treeor::legacy_snapshot_case(w)?;
     // bounded liveness: every live member sits in the latest epoch
     for g in 0..w.groups.len() {
         let latest = w.groups[g].log.len() as u64;
